@@ -278,3 +278,64 @@ def vc_match(prog, expand=False, same_path=False, width=False):
                           name=f"BaseMatcher.match[{'expand' if expand else 'fresh'}{',same-trace' if same_path else ''}{',width' if width else ''}]", feas_timeout=1500)
     rep.loops_found = L
     return fv, rep
+
+
+# ============================================================================================ BaseMatcher.increase_max_lattice_width
+def vc_increase_width(prog, old_width=False):
+    """BaseMatcher.increase_max_lattice_width (C07 widening, C08 round bookkeeping): the new width is stored BEFORE the matching
+    continues, the matching continues through exactly one call of match() on the STORED trace in an expansion round
+    (expand=True: match then increments the round counter, keeps the lattice - contract of match, groups extend:/expand:), the
+    caller's `unique` and `tqdm` are handed on, the result is what match returns, and nothing else of the matcher is written by
+    this function itself.  The callee match is a contract here (proved for its own body in vc_match)."""
+    fv = prog.func(K.BASE, 'BaseMatcher.increase_max_lattice_width')
+    st = {}
+    Wn = I('W_new')
+    unique = B('unique')
+
+    def setup(ctx, it):
+        st.clear()
+        m = K.mk_matcher('BaseMatcher')
+        m.f['max_lattice_width'] = I('W_old') if old_width else None
+        m.f['lattice'] = Obj('Lattice')
+        m.f['early_stop_idx'] = None if ctx.choice(2, 'old-early-stop') == 0 else I('old_early_stop_idx')
+        m.f['path'] = Path(0, I('len_old_path'))
+        tq = Obj('Tqdm')
+        st.update(m=m, tq=tq, calls=[], pre=dict(m.f))
+        ctx.assume(Wn >= 1)
+        if old_width:
+            # C07 speaks about increasing sequences of widths
+            ctx.assume(I('W_old') >= 1, Wn >= I('W_old'))
+        return [m, Wn], {'unique': unique, 'tqdm': tq}
+
+    def c_match(it, fv_, args, kw):
+        names = ('path', 'unique', 'tqdm', 'expand')
+        bound = {'unique': False, 'tqdm': None, 'expand': False}
+        bound.update(dict(zip(names, args[1:])))
+        bound.update(kw)
+        st['calls'].append(dict(recv=args[0], bound=bound, nargs=len(args) - 1 + len(kw), state=dict(args[0].f) if isinstance(args[0], Obj) else None))
+        st['res'] = Obj('MatchResult')
+        return st['res']
+
+    def goals(ctx, res):
+        m, calls = st['m'], st['calls']
+        g = [('widen:matching-continued-by-exactly-one-call-of-match', b2z(len(calls) == 1))]
+        if len(calls) == 1:
+            c = calls[0]
+            b, s = c['bound'], c['state'] or {}
+            g.append(('widen:match-called-on-this-matcher', b2z(c['recv'] is m)))
+            g.append(('widen:new-width-stored-before-the-matching-continues', b2z(eq(s.get('max_lattice_width'), Wn))))
+            g.append(('widen:stored-trace-is-continued', b2z(b.get('path') is st['pre']['path'] and s.get('path') is st['pre']['path'])))
+            g.append(('widen:expansion-round-requested', b2z(b.get('expand') is True)))
+            g.append(('widen:unique-handed-on', b2z(b.get('unique') is unique)))
+            g.append(('widen:tqdm-handed-on', b2z(b.get('tqdm') is st['tq'])))
+            g.append(('widen:no-unknown-argument-to-match', b2z(set(b) == {'path', 'unique', 'tqdm', 'expand'})))
+            g.append(('widen:result-is-the-result-of-match', b2z(res is st.get('res'))))
+            g.append(('widen:lattice-and-round-counter-left-to-match',
+                      b2z(all((s.get(k) is st['pre'][k]) or (eq(s.get(k), st['pre'][k]) is True) for k in ('lattice', 'expand_now', 'early_stop_idx', 'map', 'only_edges')))))
+        g.append(('widen:width-is-the-new-one-at-return', b2z(eq(m.f.get('max_lattice_width'), Wn))))
+        g.append(('widen:frame-only-the-width-is-written',
+                  b2z(set(m.f) == set(st['pre']) and all((m.f[k] is st['pre'][k]) or (eq(m.f[k], st['pre'][k]) is True) for k in st['pre'] if k != 'max_lattice_width'))))
+        return [(a, b2z(b)) for a, b in g]
+    rep = verify_function(prog, fv, setup, goals, models=dict(K.base_models()), contracts={'BaseMatcher.match': c_match},
+                          name=f"BaseMatcher.increase_max_lattice_width[{'width->width' if old_width else 'none->width'}]")
+    return fv, rep
